@@ -13,6 +13,7 @@ bytes to UTF-16 units)."""
 import json
 import os
 import random
+import re
 import shutil
 
 from common import Check, ToolError, garden, pmap, scratch_dir, tlc, tlc_ok, vacuity, write_ndjson
@@ -118,6 +119,13 @@ def scenario(rnd, texts):
             nl = text.count("\n")
             line = rnd.choice([0, rnd.randint(0, nl + 1), nl + 5])
             ch = rnd.choice([0, 1, 3, 7, 200])
+            # half of the positions are places where something is: just after an opening parenthesis (inside a
+            # call's arguments, also of calls without arguments), or at the start of a word
+            spots = [mm.end() if mm.group(0) == "(" else mm.start() for mm in re.finditer(r"\(|[A-Za-z_]\w*", text)]
+            if spots and rnd.random() < 0.5:
+                off = rnd.choice(spots)
+                line = text.count("\n", 0, off)
+                ch = len(text[text.rfind("\n", 0, off) + 1:off].encode("utf-16-le")) // 2
             m = rnd.choice(METHODS)
             p = {"textDocument": {"uri": uri}, "position": {"line": line, "character": ch}}
             if m == "textDocument/formatting":
@@ -166,9 +174,53 @@ def scenario(rnd, texts):
     return msgs
 
 
+def sweep_scenario(rnd, texts):
+    """One document, every request method at a sample of the places where something is (the start of a word,
+    just inside an opening parenthesis): systematic where scenario() is random."""
+    msgs = []
+    nid = [0]
+
+    def req(method, params):
+        nid[0] += 1
+        msgs.append(({"jsonrpc": "2.0", "id": nid[0], "method": method, "params": params},
+                     {"ev": "send", "kind": "request", "id": str(nid[0]), "method": method, "uri": "", "text": ""}))
+
+    def note(method, params, uri="", text=""):
+        msgs.append(({"jsonrpc": "2.0", "method": method, "params": params},
+                     {"ev": "send", "kind": "notification", "id": "", "method": method, "uri": uri, "text": text}))
+
+    req("initialize", {"capabilities": {}, "rootUri": None})
+    note("initialized", {})
+    uri = "file:///tmp/verif_sweep.gdn"
+    text = rnd.choice([t for t in texts if "(" in t and len(t) > 40] or texts)
+    note("textDocument/didOpen", {"textDocument": {"uri": uri, "languageId": "garden", "version": 1, "text": text}}, uri, "t1")
+    msgs[-1][1]["doc_text"] = text
+    spots = [mm.end() if mm.group(0) == "(" else mm.start() for mm in re.finditer(r"\(|[A-Za-z_]\w*", text)]
+    rnd.shuffle(spots)
+    # parentheses first: argument lists, also empty ones
+    spots.sort(key=lambda o: 0 if text[o - 1:o] == "(" else 1)
+    for off in spots[:24]:
+        line = text.count("\n", 0, off)
+        ch = len(text[text.rfind("\n", 0, off) + 1:off].encode("utf-16-le")) // 2
+        for m in METHODS:
+            if m in ("textDocument/formatting", "textDocument/documentSymbol"):
+                continue
+            p = {"textDocument": {"uri": uri}, "position": {"line": line, "character": ch}}
+            if m == "textDocument/rename":
+                p["newName"] = "renamed_v"
+            if m == "textDocument/codeAction":
+                p = {"textDocument": {"uri": uri}, "range": {"start": {"line": line, "character": ch}, "end": {"line": line, "character": ch + 2}}, "context": {"diagnostics": []}}
+            if m == "textDocument/references":
+                p["context"] = {"includeDeclaration": True}
+            req(m, p)
+    req("shutdown", None)
+    note("exit", None)
+    return msgs
+
+
 def record(seed, texts):
     rnd = random.Random(seed)
-    msgs = scenario(rnd, texts)
+    msgs = sweep_scenario(rnd, texts) if seed % 6 == 5 else scenario(rnd, texts)
     c = Lsp()
     events = [{"ev": "reset"}]
     diag_texts = {}           # uri -> list of texts in the order opened/changed
